@@ -238,32 +238,47 @@ pub fn run_check(a: &CheckArgs) -> CheckResult {
             children.push((*w, *start, out, child));
         }
         let mut next = vec![];
-        for (w, start, out, mut child) in children {
-            let pid = child.id();
-            // watchdog: a worker whose current run does not advance for 120 s is stuck
-            let mut last_seen = None;
-            let mut last_change = std::time::Instant::now();
-            let status = loop {
-                match child.try_wait() {
-                    Ok(Some(st)) => break Some(st),
-                    Ok(None) => {}
-                    Err(_) => break None,
+        // phase 1: wait for all workers of this generation; a worker whose output file has not been
+        // touched for 60 s (normal: a line every few milliseconds) is stuck and is killed
+        let mut live: Vec<(u64, u64, PathBuf, std::process::Child, Option<Option<std::process::ExitStatus>>, bool)> =
+            children.into_iter().map(|(w, st, out, ch)| (w, st, out, ch, None, false)).collect();
+        loop {
+            let mut running = 0;
+            for (_w, start, out, child, status, killed) in live.iter_mut() {
+                if status.is_some() {
+                    continue;
                 }
-                std::thread::sleep(std::time::Duration::from_millis(50));
-                if last_change.elapsed().as_secs() >= 5 {
-                    let wo = read_worker_file(&out);
-                    if wo.last_begun != last_seen {
-                        last_seen = wo.last_begun;
-                        last_change = std::time::Instant::now();
-                    } else if last_change.elapsed().as_secs() >= 120 {
-                        let wchan = proc_wchan(child.id());
-                        let _ = child.kill();
-                        let _ = child.wait();
-                        crashes.push((wo.last_begun.unwrap_or(start), format!("no progress for 120 s (kernel wait state: {wchan}) — killed by watchdog")));
-                        break None;
+                match child.try_wait() {
+                    Ok(Some(st)) => {
+                        *status = Some(Some(st));
+                        continue;
+                    }
+                    Ok(None) => {}
+                    Err(_) => {
+                        *status = Some(None);
+                        continue;
                     }
                 }
-            };
+                running += 1;
+                let idle = std::fs::metadata(&*out).and_then(|m| m.modified()).ok().and_then(|m| m.elapsed().ok()).map(|d| d.as_secs()).unwrap_or(0);
+                if idle >= 60 {
+                    let wo = read_worker_file(out);
+                    let wchan = proc_wchan(child.id());
+                    let _ = child.kill();
+                    let _ = child.wait();
+                    crashes.push((wo.last_begun.unwrap_or(*start), format!("no progress for 60 s (kernel wait state: {}) - killed by watchdog", wchan.trim())));
+                    *status = Some(None);
+                    *killed = true;
+                }
+            }
+            if running == 0 {
+                break;
+            }
+            std::thread::sleep(std::time::Duration::from_millis(50));
+        }
+        for (w, start, out, child, status, _killed) in live {
+            let pid = child.id();
+            let status = status.flatten();
             let wo = read_worker_file(&out);
             if let Some(s) = wo.summary.clone() {
                 total.merge(s);
@@ -420,13 +435,56 @@ pub fn reproduces_in_fresh_process(prop: &str, clause: &str, trace: &Trace) -> b
 /// observable outcome instead of the end of the replay command.
 pub fn replay_file(path: &Path) -> i32 {
     let rf: Option<ReplayFile> = std::fs::read_to_string(path).ok().and_then(|t| serde_json::from_str(&t).ok());
-    let out = match std::process::Command::new(std::env::current_exe().unwrap()).arg("replay-inner").arg(path).output() {
-        Ok(o) => o,
+    let tmp = PathBuf::from(format!("/dev/shm/scsim-replay-{}.out", std::process::id()));
+    let child = std::process::Command::new(std::env::current_exe().unwrap())
+        .arg("replay-inner")
+        .arg(path)
+        .stdout(std::fs::File::create(&tmp).map(std::process::Stdio::from).unwrap_or(std::process::Stdio::null()))
+        .stderr(std::process::Stdio::null())
+        .spawn();
+    let mut child = match child {
+        Ok(c) => c,
         Err(e) => {
             eprintln!("cannot start replay: {e}");
             return 2;
         }
     };
+    // a trace that makes the library hang is reproduced when it hangs again: 60 s without an exit
+    let t0 = std::time::Instant::now();
+    let status = loop {
+        match child.try_wait() {
+            Ok(Some(st)) => break Some(st),
+            Ok(None) => {}
+            Err(_) => break None,
+        }
+        if t0.elapsed().as_secs() >= 60 {
+            let _ = child.kill();
+            let _ = child.wait();
+            let _ = std::fs::remove_file(&tmp);
+            return match rf {
+                Some(rf) if rf.clause == "process-crash" => {
+                    println!("reproduced: the process running the trace did not terminate within 60 s");
+                    println!("VIOLATION property={} replay={}", rf.property, path.display());
+                    1
+                }
+                _ => {
+                    println!("HARNESS ERROR: replay did not terminate within 60 s");
+                    2
+                }
+            };
+        }
+        std::thread::sleep(std::time::Duration::from_millis(20));
+    };
+    struct Out {
+        stdout: Vec<u8>,
+        status: std::process::ExitStatus,
+    }
+    let status = match status {
+        Some(s) => s,
+        None => return 2,
+    };
+    let out = Out { stdout: std::fs::read(&tmp).unwrap_or_default(), status };
+    let _ = std::fs::remove_file(&tmp);
     print!("{}", String::from_utf8_lossy(&out.stdout));
     match out.status.code() {
         Some(0) => 0,
